@@ -7,11 +7,11 @@ res = json.load(open('/verif/seeded/results.json'))
 for key, r in sorted(res.items()):
     pid, m = key.split('-')
     d = f'{src}/{pid}/out/{m}'
-    if not os.path.isdir(d):
-        continue
     out = f'/verif/seeded/{key}'
+    if not os.path.isdir(d) and not os.path.isdir(out):
+        continue
     os.makedirs(out, exist_ok=True)
-    for f in glob.glob(d + '/*') + glob.glob(d + '/demo/*'):
+    for f in (glob.glob(d + '/*') + glob.glob(d + '/demo/*')) if os.path.isdir(d) else []:
         if os.path.isfile(f) and os.path.getsize(f) < 300000 and not f.endswith('.log'):
             rel = os.path.relpath(f, d)
             os.makedirs(os.path.dirname(os.path.join(out, rel)) or out, exist_ok=True)
